@@ -1683,6 +1683,63 @@ LOCATION_EXTRA = {   # constructs whose findings quote a NAME taken from the sou
     "big_struct.rs": "pub struct ReportManager { id: u32 }\n\nimpl ReportManager {\n"
                      + "".join(f"    pub fn step_{i}(&self) -> u32 {{ self.id + {i} }}\n" for i in range(9)) + "}\n",
 }
+LOCATION_EXTRA["callbacks.ts"] = '''const visible = items
+  .filter((entry) => entry.enabled)
+  .map((entry) => {
+    for (const part of entry.parts) {
+      if (part.ready) {
+        while (part.pending()) {
+          if (part.stalled) {
+            part.reset();
+          }
+        }
+      }
+    }
+    return entry;
+  });
+
+const wrapped = (
+  function (entry: Entry) {
+    for (const part of entry.parts) {
+      if (part.ready) {
+        while (part.pending()) {
+          if (part.stalled) {
+            part.reset();
+          }
+        }
+      }
+    }
+    return entry;
+  }
+);
+
+const direct = (entry: Entry) => {
+  for (const part of entry.parts) {
+    if (part.ready) {
+      while (part.pending()) {
+        if (part.stalled) {
+          part.reset();
+        }
+      }
+    }
+  }
+  return entry;
+};
+
+register("handler", function (entry: Entry) {
+  for (const part of entry.parts) {
+    if (part.ready) {
+      while (part.pending()) {
+        if (part.stalled) {
+          part.reset();
+        }
+      }
+    }
+  }
+});
+'''
+# placeholders a message uses when the construct has NO name in the source (they are kinds, not quoted source text)
+KIND_PLACEHOLDERS = ("arrow_function", "function_expression", "anonymous", "function", "method", "<module>", "<lambda>")
 NON_ASCII_COMMENT = "→ naïve café ─── 日本語"   # multi-byte characters: byte offsets and character offsets differ after them
 
 
@@ -1780,7 +1837,7 @@ def c12_location_bounded(ctx):
                 pass
             else:
                 src_line = lines[ln - 1].rstrip("\r")
-                toks = _quoted_tokens(msg)
+                toks = [t for t in _quoted_tokens(msg) if t not in KIND_PLACEHOLDERS]
                 if not (0 <= col <= len(src_line) + 1):
                     why = f"column {col} outside line {ln} (length {len(src_line)})"
                 elif toks and not any(_occurs_on_line(t, src_line) for t in toks):
